@@ -89,6 +89,19 @@ FLOORS = {
 }
 
 
+# scenarios added in rounds 5 and 6 of the seeded changes: each must actually have run
+for _pid, _extra in {
+    'C02': ['aead:parallel', 'authflow:redeem/tokens'],
+    'C07': ['authflow:sigOverlap'],
+    'C08': ['authflow:overlap'],
+    'C10': ['authflow:provRedeem/google/session', 'authflow:provRedeem/okta/session', 'authflow:provRedeem/cognito/session',
+            'authflow:provRedeem/google/error', 'authflow:provRedeem/okta/error', 'authflow:provRedeem/cognito/error'],
+    'C16': ['sf:stress'],
+    'C17': ['caches:loopstress'],
+}.items():
+    FLOORS[_pid] = FLOORS.get(_pid, []) + _extra
+
+
 def coverage_floor(pid, tier):
     return FLOORS.get(pid, [])
 
